@@ -26,6 +26,7 @@ func init() {
 			"(sweep) the sweep drops exactly the entries whose key is pending; every API call that sweeps also deletes every pending key from `members` and then clears `deletedKeys` before it returns (clearing earlier would blind the two steps that read the set); the binary searches Lookup performs run only with the pending set known empty (cleared, or len()==0 tested), so a removed member is never elected. " +
 			"(insert) virtual nodes are appended only for keys that are neither live nor pending deletion — the not-found edges of the two map lookups, established in the appending function, by a helper whose result implies them, or at every call site of the appending helper — and each appended entry carries saltedHash(key, i) and the same key. " +
 			"(apply) in the ring's consumer, felix/dataplane/linux proxyNeighManager, every call of a member-set mutator of the ring (Insert/Remove, derived from the ring's source) is followed on every path by dirty=true, except on the size-unchanged edge of a Len() comparison that brackets exactly that one call; in the functions that decide dirtiness the ring's size feeds no other branch and is never cached (a join plus a leave keep the size but change the owners). " +
+			"(ringtotal) the handler of each host-metadata message (HostMetadataUpdate, HostMetadataRemove — the arm of the type switch on the proto type) applies a member-set mutator of the ring to the message's Hostname on every path to its return, itself or in an in-package callee that is handed the message or the hostname: a node that loses its address in the manager's family (announced as an update with that address empty) leaves the ring, so the ring depends on the current metadata only. " +
 			"(det) no architecture-/process-dependent primitive and no order-sensitive map iteration in the closure of New/Insert/Remove/Len/Lookup.",
 		NotDecided: "That the hash function (xxh3 by default, or one supplied with WithHash) is node-independent; arithmetic of the nearest-probe selection; that all nodes feed the ring the same member set (proxy_neigh_mgr); that dirty=true actually leads to reconcileListeners (CompleteDeferredWork's gate is only checked for not deriving from the ring's size); balance.",
 		Assumptions: []string{
@@ -54,6 +55,10 @@ func init() {
 				Old: "\t\tbefore := m.nodeRing.Len()\n\t\tm.nodeRing.Remove(msg.Hostname)\n", New: "\t\tm.nodeRing.Remove(msg.Hostname)\n\t\tbefore := m.nodeRing.Len()\n", Expect: "C45.ringdirty/proxyNeighManager.OnUpdate/Remove"},
 			{Name: "reconcile gated on the ring's size", File: c45MgrFile,
 				Old: "\tif !m.dirty && !m.hasFailedListener() {\n", New: "\tif (!m.dirty || m.nodeRing.Len() == 0) && !m.hasFailedListener() {\n", Expect: "C45.ringsize/proxyNeighManager"},
+			{Name: "update without an address in our family leaves the node where it was", File: c45MgrFile,
+				Old: "\t\tif addr == \"\" {\n", New: "\t\tif addr == \"\" && !m.dirty {\n\t\t\treturn\n\t\t}\n\t\tif addr == \"\" {\n", Expect: "C45.ringtotal/proxyNeighManager.OnUpdate/HostMetadataUpdate"},
+			{Name: "remove for a node we never announced is ignored", File: c45MgrFile,
+				Old: "\tcase *proto.HostMetadataRemove:\n", New: "\tcase *proto.HostMetadataRemove:\n\t\tif msg.Hostname == m.hostname {\n\t\t\treturn\n\t\t}\n", Expect: "C45.ringtotal/proxyNeighManager.OnUpdate/HostMetadataRemove"},
 			{Name: "virtual node position depends on the host byte order", File: c45File,
 				Old: "binary.LittleEndian.PutUint32(idx[:], uint32(i))", New: "binary.NativeEndian.PutUint32(idx[:], uint32(i))", Expect: "C45.det/arch/Ring.saltedHash"},
 			{Name: "sweep stops after the first pending key in map order", File: c45File,
@@ -80,6 +85,7 @@ func runC45(c *Ctx) {
 	c.Rule("C45.insert", "E-GUARD/E-FLOW", "entries appended only for keys neither live nor pending; appended entry = {saltedHash(key,i), key}", 2)
 	c.Rule("C45.ringdirty", "E-PAIR", "in proxyNeighManager every call of a member-set mutator of the ring (Insert/Remove) is followed on every path by dirty=true, except on the `equal` edge of a comparison of Ring.Len() taken immediately before and after that single call (the call was a no-op)", 2)
 	c.Rule("C45.ringsize", "E-OWN", "in the functions of proxyNeighManager that decide dirtiness, a value of Ring.Len() only feeds a branch as such a before/after bracket of one mutation, and is never cached in the manager: size is not membership", 1)
+	c.Rule("C45.ringtotal", "E-PAIR/E-FLOW", "in proxyNeighManager, every path from the type-switch arm that receives a host-metadata message (HostMetadataUpdate, HostMetadataRemove) to the handler's return applies a member-set mutator of the ring (Insert/Remove) to the message's Hostname, directly or in an in-package callee: membership is a function of the node's current metadata, never of what was seen earlier", 2)
 	c.Rule("C45.det", "E-DET", "no arch/process-dependent primitive, no order-sensitive map iteration in the ring's closure", 12)
 
 	m := &c45Model{c: c, p: p}
@@ -1252,7 +1258,238 @@ func c45Manager(m *c45Model) {
 	c.Check(len(why) == 0, "C45.ringsize/"+mgrT, p.Pos(tn.Pos()),
 		fmt.Sprintf("functions that decide dirtiness and read Ring.Len() %v: the size feeds a branch only as a before/after bracket of one mutation and is never cached", sizeFns),
 		strings.Join(why, "; ")+": equal numbers of joins and leaves leave the size unchanged, so ownership is not recomputed although the member set changed")
+	// E-TOTAL (C45.ringtotal): the ring's member set is a function of each
+	// node's CURRENT metadata.  A host-metadata message says everything there is
+	// to know about its node, so its handler must (re)decide the node's
+	// membership whatever the message carries: on every path from the arm of the
+	// type switch that receives the message to the handler's return, a member-set
+	// mutator of the ring is applied to the message's Hostname — directly, or in
+	// an in-package callee handed the message or its hostname.  A path that
+	// leaves the ring untouched keeps whatever an earlier message put there.
+	c45RingTotal(m, p, mgrT, mgrFuncs, mut, ringCall)
 	if nMut == 0 {
 		c.Lost("%s never calls a member-set mutator of its ring", mgrT)
+	}
+}
+
+// c45RingTotal: see the E-TOTAL comment in c45Manager.
+func c45RingTotal(m *c45Model, p *Prog, mgrT string, mgrFuncs []*ssa.Function, mut map[string]bool, ringCall func(ssa.Instruction) (string, bool)) {
+	c := m.c
+	const protoPkg, hostField = "felix/proto", "Hostname"
+	msgNames := []string{"HostMetadataUpdate", "HostMetadataRemove"}
+	// msgType: t is *proto.<one of msgNames>; returns the name.
+	msgType := func(t types.Type) string {
+		pt, ok := t.(*types.Pointer)
+		if !ok {
+			return ""
+		}
+		n, _ := pt.Elem().(*types.Named)
+		if n == nil || n.Obj().Pkg() == nil || !strings.HasSuffix(n.Obj().Pkg().Path(), protoPkg) {
+			return ""
+		}
+		for _, x := range msgNames {
+			if n.Obj().Name() == x {
+				return x
+			}
+		}
+		return ""
+	}
+	if len(mgrFuncs) == 0 {
+		c.Lost("%s has no methods", mgrT)
+	}
+	mgrPkg := mgrFuncs[0].Package()
+	inPkg := func(g *ssa.Function) bool { return mgrPkg != nil && g.Package() == mgrPkg }
+	// track: what is known to be the message / its hostname inside one function.
+	type track struct {
+		msgs, hosts map[ssa.Value]bool
+	}
+	var isHost func(tr *track, v ssa.Value, depth int) bool
+	isMsg := func(tr *track, v ssa.Value) bool { return tr.msgs[c44Strip(v)] }
+	isHost = func(tr *track, v ssa.Value, depth int) bool {
+		v = c44Strip(v)
+		if tr.hosts[v] {
+			return true
+		}
+		switch y := v.(type) {
+		case *ssa.UnOp:
+			if fa, ok := y.X.(*ssa.FieldAddr); ok && y.Op == token.MUL {
+				if fv := fieldVar(fa); fv != nil && fv.Name() == hostField && isMsg(tr, fa.X) {
+					return true
+				}
+			}
+		case *ssa.Call: // generated getter: a method of the message returning the field
+			g := calleeFn(y.Common())
+			if g == nil || depth > 0 || len(y.Common().Args) != 1 || !isMsg(tr, y.Common().Args[0]) || g.Signature.Recv() == nil {
+				return false
+			}
+			if len(g.Blocks) == 0 { // body not built (dependency package): the generated getter of the field
+				return g.Name() == "Get"+hostField
+			}
+			if len(g.Params) != 1 {
+				return false
+			}
+			sub := &track{msgs: map[ssa.Value]bool{g.Params[0]: true}}
+			n := 0
+			for _, r := range returnsOf(g) {
+				if len(r.Results) != 1 {
+					return false
+				}
+				if isHost(sub, r.Results[0], depth+1) {
+					n++
+				} else if _, isC := r.Results[0].(*ssa.Const); !isC {
+					return false
+				}
+			}
+			return n > 0
+		case *ssa.Phi:
+			if depth > 2 || len(y.Edges) == 0 {
+				return false
+			}
+			for _, e := range y.Edges {
+				if !isHost(tr, e, depth+1) {
+					return false
+				}
+			}
+			return true
+		}
+		return false
+	}
+	// covers: instruction in applies a mutator to the hostname (directly or via
+	// an in-package callee, every path of which does).
+	var covers func(tr *track, in ssa.Instruction, depth int) bool
+	// uncovered: "" if every path from (b, from) to a return of b's function
+	// crosses a covering instruction; else where it escapes.
+	var uncovered func(tr *track, b *ssa.BasicBlock, from, depth int) string
+	covers = func(tr *track, in ssa.Instruction, depth int) bool {
+		ci, ok := in.(*ssa.Call) // go/defer do not count
+		if !ok {
+			return false
+		}
+		args := ci.Common().Args
+		if n, ok := ringCall(in); ok {
+			return mut[n] && len(args) >= 2 && isHost(tr, args[1], 0)
+		}
+		g := calleeFn(ci.Common())
+		if g == nil || !inPkg(g) || len(g.Blocks) == 0 || depth >= 2 || len(g.Params) != len(args) {
+			return false
+		}
+		sub := &track{msgs: map[ssa.Value]bool{}, hosts: map[ssa.Value]bool{}}
+		for i, a := range args {
+			if isMsg(tr, a) {
+				sub.msgs[g.Params[i]] = true
+			} else if isHost(tr, a, 0) {
+				sub.hosts[g.Params[i]] = true
+			}
+		}
+		if len(sub.msgs)+len(sub.hosts) == 0 {
+			return false
+		}
+		return uncovered(sub, g.Blocks[0], 0, depth+1) == ""
+	}
+	uncovered = func(tr *track, b0 *ssa.BasicBlock, from, depth int) string {
+		seen := map[*ssa.BasicBlock]bool{}
+		type pos struct {
+			b    *ssa.BasicBlock
+			from int
+		}
+		stack := []pos{{b0, from}}
+		for len(stack) > 0 {
+			x := stack[len(stack)-1]
+			stack = stack[:len(stack)-1]
+			if x.from == 0 {
+				if seen[x.b] {
+					continue
+				}
+				seen[x.b] = true
+			}
+			if isPanicBlock(x.b) {
+				continue
+			}
+			hit := false
+			for i := x.from; i < len(x.b.Instrs) && !hit; i++ {
+				hit = covers(tr, x.b.Instrs[i], depth)
+			}
+			if hit {
+				continue
+			}
+			if r, ok := x.b.Instrs[len(x.b.Instrs)-1].(*ssa.Return); ok {
+				at := "the end of " + fnName(b0.Parent())
+				if r.Pos().IsValid() {
+					at = "the return at " + p.Pos(r.Pos())
+				}
+				return at
+			}
+			for _, s := range x.b.Succs {
+				stack = append(stack, pos{s, 0})
+			}
+		}
+		return ""
+	}
+
+	found := map[string]int{}
+	for _, f := range mgrFuncs {
+		allInstrs(f, false, func(_ *ssa.Function, in ssa.Instruction) {
+			ta, ok := in.(*ssa.TypeAssert)
+			if !ok {
+				return
+			}
+			name := msgType(ta.AssertedType)
+			if name == "" {
+				return
+			}
+			tr := &track{msgs: map[ssa.Value]bool{}, hosts: map[ssa.Value]bool{}}
+			type start struct {
+				b    *ssa.BasicBlock
+				from int
+			}
+			var starts []start
+			if !ta.CommaOk {
+				tr.msgs[ta] = true
+				starts = append(starts, start{ta.Block(), instrIndex(ta) + 1})
+			} else {
+				for _, r := range *ta.Referrers() {
+					ex, ok := r.(*ssa.Extract)
+					if !ok {
+						continue
+					}
+					if ex.Index == 0 {
+						tr.msgs[ex] = true
+						continue
+					}
+					for _, b := range f.Blocks {
+						ifi, ok := b.Instrs[len(b.Instrs)-1].(*ssa.If)
+						if !ok || len(b.Succs) != 2 {
+							continue
+						}
+						if cc, pol := stripNot(ifi.Cond, true); cc == ssa.Value(ex) {
+							if pol {
+								starts = append(starts, start{b.Succs[0], 0})
+							} else {
+								starts = append(starts, start{b.Succs[1], 0})
+							}
+						}
+					}
+				}
+			}
+			if len(tr.msgs) == 0 || len(starts) == 0 {
+				return // asserted but never received as a message here
+			}
+			found[name]++
+			key := fmt.Sprintf("C45.ringtotal/%s/%s", fnName(f), name)
+			var bad []string
+			for _, s := range starts {
+				if at := uncovered(tr, s.b, s.from, 0); at != "" {
+					bad = append(bad, at)
+				}
+			}
+			c.Check(len(bad) == 0, key, p.Pos(ta.Pos()),
+				fmt.Sprintf("every path from the %s arm to the return applies a member-set mutator of the ring (%v) to the message's %s", name, sortedKeys(mut), hostField),
+				fmt.Sprintf("%s receives a %s, but %s is reachable from the arm without any of %v having been applied to the ring for msg.%s (neither directly nor in an in-package callee given the message or its hostname): on that path the node keeps the ring membership an earlier message gave it, so two Felixes with the same current datastore view but different histories hold different rings and elect different owners for a VIP", fnName(f), name, c45Uniq(bad), sortedKeys(mut), hostField))
+		})
+	}
+	for _, n := range msgNames {
+		if found[n] == 0 {
+			c.Lost("%s has no type-switch arm receiving *proto.%s", mgrT, n)
+		}
 	}
 }
